@@ -396,7 +396,12 @@ class Parser:
                                     hard=True, brk=True)]
                         + self.generate_replacements(arguments_extr,
                                                         mac.extract, start))
+            # a language switch inside of the detached text does not last
+            # beyond it (compare TeX: group of the argument)
+            stack = self.parms.parser_lang_stack.copy()
             self.extracted.append(self.expand_sequence(scanner.Buffer(toks)))
+            self.parms.parser_lang_stack = stack
+            self.parms.lang_context = stack[-1][0]
         out = [defs.ActionToken(start)]
         if callable(mac.repl):
             return out + mac.repl(self, buf, mac, arguments, delimiters, start)
